@@ -101,6 +101,11 @@ def evaluate(case: Dict, res: Dict) -> Tuple[bool, str]:
             if not good:
                 ok = False
                 msgs.append(f"{prop}: expected VIOLATION{' mentioning ' + case['mention'] if case.get('mention') else ''}, got rc={rc}: {out[-400:]}")
+        elif prop in (case.get("undecided") or []):
+            # a recorded decline (DESIGN.md §10.9): the check may say "cannot read this shape" (exit 2) but never VIOLATION
+            if rc not in (0, 2) or "VIOLATION property=" in out:
+                ok = False
+                msgs.append(f"{prop}: twin recorded as undecided must not raise a violation, got rc={rc}: {out[-600:]}")
         else:
             if rc != 0:
                 ok = False
@@ -143,7 +148,7 @@ def twin_cases() -> List[Dict]:
         meta = json.loads((d / "meta.json").read_text()) if (d / "meta.json").exists() else {}
         props = meta.get("props") or ALL_PROPS
         out.append({"id": f"twin-{d.name}", "prop": props[0], "props": list(props), "edits": [], "patch": str(pp),
-                    "expect": "T", "mention": None})
+                    "expect": "T", "mention": None, "undecided": list(meta.get("undecided_props") or [])})
     return out
 
 
@@ -194,6 +199,8 @@ def summary_for(prop: str, jobs: int = 16) -> Dict:
                 out["skipped"] += 1
             elif ok and case["expect"] == "V":
                 out["mutants_detected"] += 1
+            elif ok and prop in (case.get("undecided") or []):
+                out["twins_recorded_undecided"] = out.get("twins_recorded_undecided", 0) + 1       # no VIOLATION; may be exit 2 (DESIGN §10.9)
             elif ok:
                 out["twins_silent"] += 1
             if not ok:
